@@ -346,6 +346,7 @@ SITES["C13"] = [
     dict(file="pipeline/config.py", cls="PipelineInput", fn="_serialize_types", mode="order", where="return", lean="inputTypesOrder", atoms={}),
     dict(file="pipeline/builder.py", cls="PipelineBuilder", fn="build_config", mode="order", where="c_cfg.inputs", lean="componentInputsOrder", atoms={}),
     dict(file="pipeline/builder.py", cls="PipelineBuilder", fn="build_config", mode="order", where="cfg.aliases", lean="aliasesOrder", atoms={}),
+    dict(file="pipeline/builder.py", cls="PipelineBuilder", fn="build_config", mode="order", where="cfg.literals", lean="literalsOrder", atoms={}),
 ]
 
 SITES["C16"] = [
